@@ -745,7 +745,11 @@ func c14Workflows(t *testing.T, r *vReport, idx *int64, root string) {
 		// whose value is out of range)
 		"nan", "inf", "Infinity", "-inf", "NaN", ".inf", "-.INF", ".nan", ".NaN", "0x10", "0o17", "1e3", "-1.5", "1.", ".5", "+7", "1e", "0x", "12abc", "1 2",
 		// the other spellings of booleans and null; quoted scalars (strings, whatever they hold)
-		"True", "TRUE", "False", "FALSE", "~", "Null", "NULL", "\"3\"", "'3'", "\"true\"", "'null'", "\"0x10\"", "'~'"}
+		"True", "TRUE", "False", "FALSE", "~", "Null", "NULL", "\"3\"", "'3'", "\"true\"", "'null'", "\"0x10\"", "'~'",
+		// block scalars whose text is no YAML value when read on its own (a comment, a document
+		// marker): strings like every block scalar (block scalars holding a numeral, a boolean or null
+		// are left out: the AST does not record the style)
+		"|\n        # TODO", "|-\n        # TODO", ">-\n        # a\n        # b", "|-\n        ---", "|\n        ...", "|-\n        a # b"}
 	for _, ty := range []string{"string", "number", "boolean"} {
 		for _, v := range values {
 			*idx++
@@ -797,7 +801,7 @@ func c14HasKind(errs []*Error, kinds ...string) bool {
 func TestVerifC14(t *testing.T) {
 	r := vNewReport("C14")
 	defer r.Write(t)
-	r.Extra["rule"] = "every spec of the bundled popular-actions table x call sites {none, required, all, required minus each, one extra, re-cased} with references to every declared and one undeclared output; 343 local action interfaces (3 inputs over absent/optional/required/required+default/optional+default/required+empty default/required+falsy default) x 0-2 outputs x every subset of declared inputs + extra + re-cased; 256 reusable-workflow input interfaces (2 inputs over absent | type x required x default incl. empty and falsy defaults) x 7 secret sets (explicit / absent required key, empty body, both declaration orders) x 0-1 outputs x 8+ call sites (none, required, all re-cased, extra input, extra secret, inherit, inherit without inputs, undeclared input holding an expression, minus each), interface derived from the file and from the AST (callee linted first in the same run), every case with 4 forms of the callee's `on:` (other events before / after workflow_call); 3 types x 45 typed values (literals in every spelling of the YAML core schema, plain and quoted; expressions); derivation agreement over 3 types x 6 spellings of required x 7 of default x 3 of a secret's required (literal and expression values) x 2 call sites. oracle = set arithmetic on the declared interface. class = (family, call site, expected report counts); non-trivial = something must be reported"
+	r.Extra["rule"] = "every spec of the bundled popular-actions table x call sites {none, required, all, required minus each, one extra, re-cased} with references to every declared and one undeclared output; 343 local action interfaces (3 inputs over absent/optional/required/required+default/optional+default/required+empty default/required+falsy default) x 0-2 outputs x every subset of declared inputs + extra + re-cased; 256 reusable-workflow input interfaces (2 inputs over absent | type x required x default incl. empty and falsy defaults) x 7 secret sets (explicit / absent required key, empty body, both declaration orders) x 0-1 outputs x 8+ call sites (none, required, all re-cased, extra input, extra secret, inherit, inherit without inputs, undeclared input holding an expression, minus each), interface derived from the file and from the AST (callee linted first in the same run), every case with 4 forms of the callee's `on:` (other events before / after workflow_call); 3 types x 51 typed values (literals in every spelling of the YAML core schema, plain and quoted; expressions); derivation agreement over 3 types x 6 spellings of required x 7 of default x 3 of a secret's required (literal and expression values) x 2 call sites. oracle = set arithmetic on the declared interface. class = (family, call site, expected report counts); non-trivial = something must be reported"
 	r.Extra["assumptions"] = []string{"for bundled actions the table itself is the declaration (its content is not frozen)", "assignability per docs/checks.md: string <- string|number, number <- number, boolean <- anything, anything <- any"}
 	root := vTempDir(t, "c14-")
 	if raw := vReplayInput(); raw != nil {
